@@ -5,6 +5,19 @@ import json, os
 HERE = os.path.dirname(os.path.dirname(os.path.abspath(__file__)))
 
 CLAIMED = {
+    "C16": dict(
+        text="spec/Print.tla defines a template as a sequence of text and reference items and Emitted as their concatenation with each "
+        "reference replaced by the value current when the print executes (variables plain/.key/.index/.length/unknown, headers by name/index, "
+        "metadata, runtime fields); Eval.tla's print clause adds once/onmatch. TLC (spec/MC_Print.tla) enumerates every arrangement of up to 3 "
+        "items over 7 text shapes x 9 reference kinds (adjacent, separated, start/end), checks TextOnly and NothingLost and emits the expected "
+        "output; every arrangement is replayed as a real print(). In addition generated csvpaths with print templates that reference variables "
+        "assigned before/after the print on the same line are validated per line by RunTrace (printed compared after every line).",
+        note="Trusted: TLC; text directly after a reference starts with a character that ends the reference's name (grammar) and a literal dot is "
+        "written '..' (docs/printing.md). Known finding: adjacent references. Whole lists/dicts are not printed (Python repr is outside the value model).",
+        technique="TLA+ template spec: TLC-enumerated arrangements replayed into print(); implementation traces validated against the run machine",
+        ref="7 (C16)",
+    ),
+
     "C18": dict(
         text="spec/Archive.tla's Abort action with AbortLeavesRecords/AbortedStaysAborted/CompleteMeansAllSaved (TLC, serial and breadth-first "
         "lifecycles) and spec/ArchiveTrace.tla's AbortDiff. Every (member, line) abort point in groups of 1-4 csvpaths, for serial and "
